@@ -19,7 +19,7 @@
 (***************************************************************************)
 EXTENDS Integers, Sequences, FiniteSets, TLC, Json, TextOps
 
-CONSTANTS EffTokens, MaxEff, Modes, FnModes, MaxFns, Depth, InputOps, Flags, Entries, TracerStyles, Threadeds, Givens
+CONSTANTS EffTokens, MaxEff, Modes, FnModes, MaxFns, Depth, InputOps, Flags, Entries, TracerStyles, Threadeds, Givens, Blockeds
 
 VARIABLES file,       \* [top |-> prog, fns |-> Seq(prog)]   prog = [effs |-> Seq(token), mode |-> mode]
           pOut, pSleep, pMods,  \* process globals: "real" or "patched"
@@ -180,7 +180,11 @@ TopProgs == [effs : SeqsUpTo(EffTokens, MaxEff), mode : Modes]
 FnProgs == [effs : SeqsUpTo(EffTokens, MaxEff), mode : FnModes]
 \* threaded = TRUE: executions go through the helper thread with a time limit (they all end by themselves here;
 \* time-limit violations are TimeoutRace.tla's); unbounded recursion is left to the unthreaded runs
-Files == {f \in [top : TopProgs, fns : SeqsUpTo(FnProgs, MaxFns), tracer : TracerStyles, threaded : Threadeds] :
+\* blocked: a module the INSTRUCTOR blocked for student code (block_module) before the first execution.  The programs
+\* here never import it, so it changes nothing in what an execution does -- in particular the modules pedal's own
+\* patching needs ("time" for time.sleep, "sys" for sys.stdout) must still be reachable for pedal itself
+Files == {f \in [top : TopProgs, fns : SeqsUpTo(FnProgs, MaxFns), tracer : TracerStyles, threaded : Threadeds,
+                 blocked : Blockeds] :
             f.threaded => (f.top.mode # "recursion" /\ \A i \in 1..Len(f.fns) : f.fns[i].mode # "recursion")}
 
 Init == /\ file \in Files
